@@ -339,7 +339,11 @@ def report(ctx, events, rejects, nontrivial=None, key=None, rule="", exhaustive=
         h = hashlib.sha1(json.dumps(ev, sort_keys=True).encode()).hexdigest()[:12]
         path = os.path.join(repdir, "%s-%s.json" % (ctx.id, h))
         with open(path, "w") as f:
-            json.dump(dict(property=ctx.id, reason=reason, all_reasons=rejects[idx], event=ev, seed=ctx.seed, tier=ctx.tier), f, indent=1)
+            doc = dict(property=ctx.id, reason=reason, all_reasons=rejects[idx], event=ev, seed=ctx.seed, tier=ctx.tier)
+            if "sess" in ev:        # the event was observed in a session: the replay needs the cases that ran before it
+                pack, pos = ev["sess"]
+                doc["session"] = getattr(ctx, "packs")[pack]["session"][:pos + 1]
+            json.dump(doc, f, indent=1)
         print("VIOLATION property=%s replay=%s reason=%s" % (ctx.id, path, reason))
         shown += 1
     # evidence
